@@ -13,6 +13,7 @@ import (
 	"reduction.dev/reduction/proto/jobpb"
 	"reduction.dev/reduction/proto/snapshotpb"
 	"reduction.dev/reduction/storage/locations"
+	"reduction.dev/reduction/util/verifhook"
 
 	"google.golang.org/protobuf/proto"
 )
@@ -191,6 +192,7 @@ func (s *Store) finishSnapshot(snap *jobSnapshot) {
 	snap.splitterState = s.sourceSplitters[0].Checkpoint()
 
 	go func() {
+		verifhook.Point("snapshots.publish.begin", s, snap.id)
 		uri, err := s.finishSnapshotAsync(snap)
 		if err != nil {
 			s.errChan <- err
